@@ -102,7 +102,10 @@ def execute(sc, ctx, want=('C02',)):
         axioms, claims = [], []
     if len(axioms) >= 3: out.probe('axioms_ge3')
     if 'C03' in want and (len(axioms) >= 2 or len(claims) >= 2): out.nontrivial = True
-    if any(_p.B.from_py(c) != _p.B.py_expand(c) for c in mod._claims): out.probe('notation_in_claim')
+    try:
+        if any(_p.B.from_py(c) != _p.B.py_expand(c) for c in mod._claims): out.probe('notation_in_claim')
+    except _p.T.Abort:
+        pass        # a claim that is an illegal instantiation (D5/D12): only this reach probe is skipped
     triples = {}
     refusals = {}
     fs = SimFS()
